@@ -47,6 +47,7 @@ def plan(tier, seed):
     for sub in range(4 if tier == "quick" else 32):
         shards.append({"kind": "range", "sub": sub, "n": 1500 if tier == "quick" else 8000})
     shards.append({"kind": "repo-tests", "part": "calendar"})
+    shards.append({"kind": "insitu-exports", "n": 150 if tier == "quick" else 2000})
     return shards
 
 
@@ -221,6 +222,10 @@ def worker(ctx, shard):
         from props import workload_r
 
         workload_r.judge(ctx, shard["part"])
+    if kind == "insitu-exports":
+        from props import export_common as EC
+
+        EC.insitu_exports(ctx, mon, lambda: sum(mon.calls.values()), shard["n"], scale_kind="time")
     for (u, op), n in mon.calls.items():
         ctx.event("%s.%s" % (u, op), n)
     ctx.event("direct_calls", mon.direct)
